@@ -118,9 +118,13 @@ def stepCb (ts : List String) : String :=
 
 def stepFrame (ts : List String) : String :=
   match ts with
-  | ["dec", hx] =>
+  | ["dec", kind, hx] =>
     match C15.unhex hx with
     | some bs =>
+      let flagged := match bs with
+        | b :: _ => CkbVerif.Frame.compressFlag b
+        | [] => false
+      if kind = "u" && flagged then "flagged" else
       match CkbVerif.Frame.decompressDecision bs with
       | .err => "err"
       | .raw p => s!"raw {p.length}"
